@@ -15,6 +15,16 @@ Driver ops for the Prover model (C02 / C03).
                                `Display` format with '_' for ' '
       -> ok cycles=<n> steps=<n> canon=<bool> | undefinedOnWay <q>,<c> | spinoutOnWay | overBudget
          | notCanon | BAD-TAPE
+  replay <budget> <lim> <apps> | prog
+                               the VERIFIED whole-run validator `replay` (BB/Model/ValidateTrace.lean,
+                               theorems BB/Props/C02.lean): <apps> = the applications reported by
+                               the real run, `cycle;state;before;after` joined by '#', tapes with
+                               '_' for ' ', or `-` when there are none
+      -> undfnd cycle=<c> slot=<q>,<s> marks=<m> steps=<n> blanks=<q:n,..>
+       | spnout cycle=<c> marks=<m> steps=<n> blanks=..
+       | blankrec cycle=<c> state=<q> steps=<n> blanks=..
+       | limit state=<q> tape=<display with _> marks=<m> steps=<n> blanks=..
+       | badapp cycle=<c> why=<..> | appmismatch cycle=<c> | BAD-TAPE
 -/
 import BB.Model.Instrs
 import BB.Model.Tape
@@ -22,6 +32,7 @@ import BB.Model.Machine
 import BB.Model.Rules
 import BB.Model.Prover
 import BB.Model.Validate
+import BB.Model.ValidateTrace
 import BB.Lemmas.Canon
 
 namespace BB.Driver.OpsProver
@@ -77,6 +88,31 @@ def handle (op : String) (args : List String) (text : String) : Option String :=
           | .overBudget => "overBudget"
           | .notCanon => "notCanon"
         | _, _ => "BAD-TAPE"
+  | "replay", [budget, lim, apps] =>
+    some <| match Prog.fromStr text with
+      | .error e => showErr e
+      | .ok p =>
+        let un (s : String) : String := String.ofList (s.toList.map fun c => if c == '_' then ' ' else c)
+        let en (s : String) : String := String.ofList (s.toList.map fun c => if c == ' ' then '_' else c)
+        let parseApp (s : String) : Option AppRec :=
+          match s.splitOn ";" with
+          | [c, q, b, a] => match Tape.parse (un b), Tape.parse (un a) with
+            | some b, some a => some ⟨c.toNat!, q.toNat!, b, a⟩
+            | _, _ => none
+          | _ => none
+        let recs := if apps == "-" then [] else (apps.splitOn "#").map parseApp
+        if recs.any Option.isNone then "BAD-TAPE" else
+        let (e, bl) := replay p budget.toNat! lim.toNat! (recs.filterMap id)
+        let bls := showBlanks bl.reverse
+        match e with
+        | .undfnd c (q, s) m n => s!"undfnd cycle={c} slot={q},{s} marks={m} steps={n} blanks={bls}"
+        | .spnout c m n => s!"spnout cycle={c} marks={m} steps={n} blanks={bls}"
+        | .blankRec c q n => s!"blankrec cycle={c} state={q} steps={n} blanks={bls}"
+        | .limit q t n => s!"limit state={q} tape={en t.show} marks={t.marks} steps={n} blanks={bls}"
+        | .badApp c w => s!"badapp cycle={c} why={match w with
+            | .undefinedOnWay _ => "undefinedOnWay" | .spinoutOnWay => "spinoutOnWay"
+            | .overBudget => "overBudget" | .notCanon => "notCanon" | .ok _ _ => "ok"}"
+        | .appMismatch c => s!"appmismatch cycle={c}"
   | _, _ => none
 
 end BB.Driver.OpsProver
